@@ -242,6 +242,7 @@ func runC06(c *Ctx) {
 	// (shared with C04/C15): otherwise uploadBundle goes on to write the descriptor of an incomplete bundle
 	checkCoreFanouts(c)
 	checkNoRelabelAsMissing(c, "reader-requires-descriptor.no-relabel")
+	checkDeleteBundleCallers(c, "immutable-after.delete-bundle-callers")
 }
 
 // checkSilentSkipOnlyNotExists: in a worker loop `for k := range input { v, err := f(k); if err != nil { ... continue } ; output <- ok }`
